@@ -48,7 +48,9 @@ def cases(tier, seed):
         d = bool(rs.rand() < .5)
         recs.append((['er', n, p, d, int(rs.randint(1 << 30))], d))
     for i, (g, d) in enumerate(recs):
-        out.append({'g': g, 'directed': d, 'ws': seed * 100 + i, 'schemes': ['bin', 'int', 'dyad', 'real', 'neartie', 'bigint']})
+        out.append({'g': g, 'directed': d, 'ws': seed * 100 + i, 'schemes': ['bin', 'int', 'dyad', 'real', 'neartie', 'bigint', 'logu']})
+    for g in G.many_paths(200 if thorough else 131):
+        out.append({'g': g, 'directed': g[-1] is True, 'ws': 1, 'schemes': ['bin', 'int']})
     return out
 
 
@@ -189,7 +191,7 @@ def check_weights(REC, bct, A, W, directed):
             S = np.asarray(S, dtype=float)
             hp = np.asarray(hp)
             good = S.shape == D.shape and bool(np.array_equal(np.isfinite(S)[off], fin[off])) and \
-                bool(np.allclose(S[off & fin], D[off & fin], rtol=1e-12, atol=1e-15))
+                bool(np.allclose(S[off & fin], D[off & fin], rtol=1e-12, atol=0))
             REC.check(PROP, 'distance_wei_floyd', 'distances', good, {'W': W, 'transform': tr, 'got': S, 'expected': D})
             hgood = hp.shape == D.shape and all(
                 (hp[i, j] == 0) if (i == j or not fin[i, j]) else (int(hp[i, j]) in H[i][j])
